@@ -195,6 +195,22 @@ def u4(rep, F):
         r["analysed"] += 1
         ps = b.get("params") or []
         pid = ps[0]["id"] if ps and ps[0].get("k") == "bind" else None
+        # locals that hold (parts of) the input: `let lines: Vec<&str> = input.lines().collect()`
+        from_input = {pid}
+        for _ in range(3):
+            for n in walk(b["body"]):
+                if n.get("k") == "let" and n.get("init") is not None and \
+                        any(x.get("k") == "local" and x.get("id") in from_input for x in walk(n["init"])):
+                    def _b(p_):
+                        if isinstance(p_, dict):
+                            if p_.get("k") == "bind":
+                                yield p_
+                            for q_ in p_.get("pats") or []:
+                                yield from _b(q_)
+                            if p_.get("pat"):
+                                yield from _b(p_["pat"])
+                    for q in _b(n.get("pat")):
+                        from_input.add(q["id"])
         for n in walk(b["body"]):
             if n.get("k") == "mcall" and n.get("m") in ("take", "truncate") and (n.get("args") or []):
                 lim = lit_val(n["args"][0])
@@ -209,7 +225,7 @@ def u4(rep, F):
                             and any(x.get("k") == "mcall" and x.get("m") in ("count", "len") for x in walk(c["l"])):
                         # the counted thing must not be the truncated collection itself
                         checked = True
-                if not checked and root and any(x.get("id") == pid for x in root):
+                if not checked and root and any(x.get("id") in from_input for x in root):
                     rep.add(Finding("U4", b["path"], "%s(%d)" % (n["m"], lim),
                                     "%s cuts its input with .%s(%d) and never rejects longer input: surplus "
                                     "lines/characters are accepted and dropped" % (b["path"], n["m"], lim),
